@@ -27,10 +27,12 @@ Normalize(r) == IF OneWay(r) \/ PairLess(r) THEN r ELSE Invert(r)
 ConcatLess(r) == LexLess(r.ft \o r.fn, r.tt \o r.tn)
 NormalizeByConcatenation(r) == IF ConcatLess(r) \/ OneWay(r) THEN r ELSE Invert(r)
 
-\* In the domain of C16: a relationship has a name and two type names; a
-\* relationship that is its own inverse up to cardinality is not a relationship
-InDomain(r) == /\ r.ft # <<>> /\ r.tt # <<>> /\ r.fn # <<>>
-               /\ ~(r.ft = r.tt /\ r.fn = r.tn /\ r.to1 # r.fo1)
+\* In the domain of C16: a relationship has a name and two type names.
+InDomain(r) == r.ft # <<>> /\ r.tt # <<>> /\ r.fn # <<>>
+\* A relationship that is its own inverse up to cardinality (same type and same name on both
+\* ends, cardinalities different) has no canonical direction: the laws that compare it with its
+\* inverse do not apply to it, the others do.
+Degenerate(r) == r.ft = r.tt /\ r.fn = r.tn /\ r.to1 # r.fo1
 
 \* The laws, on any candidate normalisation function given by its observed
 \* values: o = [inv, invinv, norm, normnorm, norminv, str, strinv]
@@ -40,7 +42,7 @@ LawsOK(r, o) ==
     /\ o.norm \in {r, o.inv}
     /\ o.normnorm = o.norm
     /\ (OneWay(r) => o.norm = r)
-    /\ (~OneWay(r) => o.norm = o.norminv /\ o.str = o.strinv)
+    /\ (~OneWay(r) /\ ~Degenerate(r) => o.norm = o.norminv /\ o.str = o.strinv)
 
 \* Model-level laws of the intended Normalize
 ObsOf(N(_), r) == [inv |-> Invert(r), invinv |-> Invert(Invert(r)), norm |-> N(r), normnorm |-> N(N(r)),
